@@ -462,7 +462,7 @@ func C11(c *Ctx) {
 		Profile: p, Grammars: c11Strata(), NGrammars: c.N(110, 1500),
 		FlagSets:  [][]string{{}, {"-optimize-parser"}},
 		InputsPer: c.N(80, 200), ExhaustLimit: c.N(120, 600), ExhaustLen: 6,
-		OptSets:       []OptSet{{Name: "default"}, {Name: "norecover", NoRecover: true}, {Name: "file", File: "in.txt"}, {Name: "file-colon", File: "dir:a/b.x:3"}, {Name: "file-percent", File: "export%20data 100%.csv"}, {Name: "memoize", Memo: true}, {Name: "stats", Stats: true}, {Name: "debug", Debug: true}},
+		OptSets:       []OptSet{{Name: "default"}, {Name: "norecover", NoRecover: true}, {Name: "file", File: "in.txt"}, {Name: "file-colon", File: "dir:a/b.x:3"}, {Name: "file-percent", File: "export%20data 100%.csv"}, {Name: "memoize", Memo: true}, {Name: "stats", Stats: true}, {Name: "debug", Debug: true}, {Name: "reader-kept", Reader: true}},
 		DebugOptEvery: 5,
 		Compare:       CmpErrs | CmpErrTypes | CmpVal | CmpPanic | CmpOK,
 		NonTrivial: func(m *ref.Result) bool {
@@ -693,6 +693,36 @@ func C14(c *Ctx) {
 		Entrypoints: true,
 	}
 	c.ModelCheck(cfg)
+	// label names whose concatenations coincide ({err, listEnd} / {errList, end}; {a, B} / {A, b} up to
+	// the case of first letters): every operator keeps exactly the label set written on it
+	for k, names := range [][]string{{"err", "errList", "listEnd", "end"}, {"a", "A", "b", "B"}} {
+		p2 := *p
+		p2.ThrowLabels = names
+		cfg2 := *cfg
+		cfg2.Profile = &p2
+		cfg2.NGrammars = c.N(60, 500)
+		cfg2.Grammars = nil
+		if k == 0 {
+			cfg2.Grammars = c14NameStrata()
+		}
+		c.ModelCheck(&cfg2)
+	}
+}
+
+func c14NameStrata() []*gast.Grammar {
+	mk := func(rules ...*gast.Rule) *gast.Grammar { return &gast.Grammar{Rules: rules} }
+	r := func(n string, e *gast.Expr) *gast.Rule { return &gast.Rule{Name: n, Expr: e} }
+	act := func(e *gast.Expr, id int) *gast.Expr { return gast.A(e, id, mon.Spec{}) }
+	body := func() *gast.Expr {
+		return gast.C(act(gast.Cl(gast.Chars("ab")), 3), gast.S(gast.L("1"), gast.Thr("err")), gast.S(gast.L("2"), gast.Thr("listEnd")), gast.S(gast.L("3"), gast.Thr("errList")), gast.S(gast.L("4"), gast.Thr("end")))
+	}
+	return []*gast.Grammar{
+		mk(r("S", gast.S(gast.Star(gast.Ref("Item")), gast.Star(gast.Dot()))), r("Item", gast.Rec(gast.Rec(gast.Ref("Body"), act(gast.L("!"), 1), "err", "listEnd"), act(gast.L("?"), 2), "errList", "end")), r("Body", body())),
+		mk(r("S", gast.S(gast.Star(gast.C(gast.Ref("I1"), gast.Ref("I2"))), gast.Star(gast.Dot()))), r("I1", gast.Rec(gast.S(gast.L("<"), gast.Ref("Body")), act(gast.L("!"), 1), "errList", "end")),
+			r("I2", gast.Rec(gast.S(gast.L("("), gast.Ref("Body")), act(gast.L("?"), 2), "err", "listEnd")), r("Body", body())),
+		mk(r("S", gast.S(gast.Star(gast.C(gast.Rec(gast.S(gast.L("<"), gast.Ref("T")), act(gast.L("!"), 1), "a", "B"), gast.Rec(gast.S(gast.L("("), gast.Ref("T")), act(gast.L("?"), 2), "A", "b"))), gast.Star(gast.Dot()))),
+			r("T", gast.C(gast.S(gast.L("1"), gast.Thr("a")), gast.S(gast.L("2"), gast.Thr("A")), gast.S(gast.L("3"), gast.Thr("b")), gast.S(gast.L("4"), gast.Thr("B")), act(gast.L("x"), 3)))),
+	}
 }
 
 func c14Strata() []*gast.Grammar {
